@@ -156,6 +156,13 @@ func (p *Path) arbitrary(t types.Type, name string, depth int, site ssa.Instruct
 // deepEq: vrt.Equal — Go value equality with the conventions of DESIGN 11.4
 // (times as instants, nil slice/map == empty).
 func (p *Path) deepEq(a, b Value, t types.Type, site ssa.Instruction) *smt.Term {
+	p.eqDepth++
+	defer func() { p.eqDepth-- }()
+	if p.eqDepth > 60 {
+		// cyclic structures (self-referencing maps): identical pointers were
+		// already handled; deeper than this is treated as equal by coinduction
+		return smt.True
+	}
 	if t != nil {
 		switch typeFullName(t) {
 		case "time.Time":
@@ -252,6 +259,9 @@ func (p *Path) deepEq(a, b Value, t types.Type, site ssa.Instruction) *smt.Term 
 		y := b.(PtrV)
 		if x.Obj == nil || y.Obj == nil {
 			return smt.Bool(x.Obj == nil && y.Obj == nil)
+		}
+		if x.Obj == y.Obj {
+			return smt.True
 		}
 		var et types.Type
 		if t != nil {
